@@ -114,8 +114,9 @@ impl PartitionConfirmationState {
                     attempts: 0,
                 });
 
-        // Update the event's confirmation status
-        event.confirmation_count = confirmation_count;
+        // Update the event's confirmation status (a stale lower count must not
+        // replace a higher one already reported)
+        event.confirmation_count = event.confirmation_count.max(confirmation_count);
         event.last_attempt = now;
         event.attempts += 1;
 
